@@ -1,4 +1,5 @@
 import QProofs.C15
+import QProofs.C15Gen
 /-!
 # C15 — property theorems: Monte-Carlo simulations are reproducible with independent repetitions
 
@@ -244,5 +245,64 @@ theorem thresholds : eqEps true = 1 / 10000000000000 ∧ eqEps false = 1 / 10000
 
 example : violationCheck (.lossMin (some (true, false))) true 2 [[⟨true, false⟩, ⟨true, true⟩], [⟨false, true⟩, ⟨true, true⟩]]
     = some false := by decide
+
+/-! ## the plumbing as coded: theorems about tables REGENERATED from the source
+
+`QGen/C15.lean` is rewritten by `harness/c15_translate.py` (Python `ast`) from /repo on every run. -/
+section generated
+open QGen.C15
+
+/-- C15.h `gen_one_stream_per_run`: the source converts the seed argument exactly once, before the repetition loop, never
+inside it, and hands that one stream to every repetition — so the coded loop is the model's `loop`, and with an integer
+seed repetition `k` is the `k`-th segment of the stream seeded with it. -/
+theorem gen_one_stream_per_run {S G D : Type} (P : Prng S G D) (n : Nat) (a : SeedArg S G) (glob : G) :
+    loopConvBefore = 1 ∧ loopConvInside = 0 ∧ loopWith loopPassesStream P n a glob = loop P n a glob := by
+  refine ⟨by decide, by decide, ?_⟩
+  simp [loopWith, show loopPassesStream = true from by decide]
+
+theorem gen_int_seed_segments {S G D : Type} (P : Prng S G D) (s : S) (glob : G) (n : Nat) :
+    (loopWith loopPassesStream P n (.int s) glob).1
+      = (List.range n).map (fun k => (P.draw (advance P k (P.ofSeed s))).1) := by
+  rw [(gen_one_stream_per_run P n (.int s) glob).2.2, loop_int]
+
+/-- C15.h: what the *other* shape would mean (the repaired defect D11): handing the raw integer to every repetition makes
+all repetitions the same draw. The obligation above is therefore not vacuous: it fails if the loop goes back to that shape. -/
+theorem loopWith_raw_int_identical {S G D : Type} (P : Prng S G D) (s : S) (glob : G) (n : Nat) :
+    (loopWith false P n (.int s) glob).1 = List.replicate n (P.draw (P.ofSeed s)).1 := by
+  simp [loopWith, loopS_int]
+
+/-- C15.h: each of the twelve `generate_empi_dist(s)(_sequence)` entry points of the four tomography classes converts its
+seed argument exactly once and hands that stream (not a wrapped / re-created one) to the experiment. -/
+theorem gen_entries_convert_once :
+    qtEntries.length = 12 ∧ qtEntries.all (fun e => e.2.2.1 == 1 && e.2.2.2) = true := by decide
+
+/-- C15.h: the keyword the simulation uses for the seed is the name of the seed parameter of
+`generate_empi_dists_sequence` in all four tomography classes (a misspelt parameter makes one entry point unusable), and
+`execute_simulation` replaces a missing seed by the setting's `seed_data`. -/
+theorem gen_seed_keyword :
+    qtSeqParams.length = 4 ∧ qtSeqParams.all (fun e => e.2.1 == repKeyword && e.2.2 == 3) = true ∧
+    execNoneDefault = "seed_data" := by decide
+
+/-- C15.h: the flow seeds the data level with `SeedSequence(seed_data).spawn(n_rep)` and the sample level with
+`SeedSequence(seed_qoperation).spawn(n_sample)`, one child generator per task, handed over positionally — the arguments of
+`flowData` / `flowSamples`. -/
+theorem gen_flow_seeds :
+    flowSeeds.map (fun e => (e.2.1, e.2.2.1)) = [("seed_data", "n_rep"), ("seed_qoperation", "n_sample")] := by decide
+
+/-- C15.g `gen_thresholds`: the thresholds the check resolves are those of the model: equality `atol` (the default
+tolerance at import) when the first stored estimate has `on_para_eq_constraint`, `1e-5` otherwise; inequality `1e-5`;
+the attribute consulted is `on_para_eq_constraint`. -/
+theorem gen_thresholds :
+    QGen.C15.eqEpsTrue = eqEps true ∧ QGen.C15.eqEpsFalse = eqEps false ∧ QGen.C15.ineqEps = QM.C15.ineqEps ∧
+    eqEpsBranches = ("__eq_const_eps_true", "__eq_const_eps_false") ∧ eqParaAttr = "on_para_eq_constraint" := by
+  refine ⟨by decide, by decide, by decide, by decide, by decide⟩
+
+/-- C15.g `gen_check_wiring`: per estimator class the built-in check calls exactly the tests of the constraints the model
+says that estimator enforces (`enforcesEq`, `enforcesIneq`). -/
+theorem gen_check_wiring : checkWiring.map (fun e => (e.1, e.2.1)) = Gen.modelWiring := by decide
+
+example : (loopWith loopPassesStream lcg 3 (.int 5) 7).1 = [5, 241366, 943247] := by decide
+
+end generated
 
 end QM.C15
